@@ -184,7 +184,11 @@ func c01BigStruct() string {
 }
 
 func c01Degenerate() []string {
-	return append(c01DegenerateForms(), "make(chan "+c01BigStruct()+")", "c = make(chan "+c01BigStruct()+", 1); c <- nil", "make([]chan "+c01BigStruct()+", 1)",
+	return append(c01DegenerateForms(),
+		// a script function handed to the bundled time package runs on the timer's goroutine
+		"t = import(\"time\"); t.AfterFunc(1000000, func() { throw \"on the timer goroutine\" }); t.Sleep(60000000)",
+		"t = import(\"time\"); t.AfterFunc(1000000, func() { x = 1 }); t.Sleep(30000000)",
+		"make(chan "+c01BigStruct()+")", "c = make(chan "+c01BigStruct()+", 1); c <- nil", "make([]chan "+c01BigStruct()+", 1)",
 		"make(type Big, make("+c01BigStruct()+")); make(chan Big)")
 }
 
